@@ -116,6 +116,21 @@ def run(ctx, rep):
             rep.check(good and bounded, "R2", key(f, s, "bounded by the remainder"), f, s,
                       why if (good and bounded) else "a write that is not `+= remainder` can overdraw the order")
     rep.floor("R2", "writes to the cancelled / lapsed / voided buckets", n_w, 18)
+    # the LAY starting-price re-size: whenever the stake is re-derived from the liability, `cancelled`
+    # absorbs the (possibly negative) difference on EVERY path to the fill - otherwise the total breaks
+    sp = prog.own_method("SimulatedOrder", "_process_sp")
+    cfgs = ctx.cfg(sp)
+    resize = [n for n in cfgs.live_nodes() if n.kind == "stmt" and isinstance(n.ast, ast.Assign)
+              and utext(n.ast.targets[0]) == "size" and "remaining_risk" in utext(n.ast.value)]
+    comp = [n for n in cfgs.live_nodes() if n.kind == "stmt" and isinstance(n.ast, ast.AugAssign)
+            and utext(n.ast.target) == "self.size_cancelled" and utext(n.ast.value) == "round(self.size_remaining - size, 2)"]
+    fills = [n for n, c in node_calls(cfgs, "_update_matched")]
+    good = len(resize) == 1 and len(comp) == 1 and len(fills) == 1 and \
+        cfgs.all_paths_pass(resize[0].id, fills[0].id, [comp[0].id])
+    rep.check(good, "R2", key(sp, None, "LAY starting-price re-size: cancelled absorbs remaining - new size on every path to the fill"),
+              sp, comp[0].ast if comp else None,
+              "a re-sized stake that is filled without the compensation overdraws the order (remaining < 0 when SP is below the limit)",
+              cfgs.fmt_path(cfgs.path(resize[0].id, fills[0].id, [comp[0].id] if comp else [])) if (resize and fills and not good) else None)
     void_group(ctx, rep, "R2")
 
     # ------------------------------------------------------------------ R3 terminal exits of place()
@@ -307,6 +322,10 @@ def MUTANTS(ctx):
              old="                        self.size_cancelled += round(self.size_remaining - size, 2)",
              new="                        self.size_cancelled = round(self.size_remaining - size, 2)", expect=["R2"],
              why="earlier cancellations forgotten at the starting price"),
+        dict(id="c04-sp-resize-guarded", file=SIM, func="SimulatedOrder._process_sp",
+             old="                        self.size_cancelled += round(self.size_remaining - size, 2)",
+             new="                        if size < self.size_remaining:\n                            self.size_cancelled += round(self.size_remaining - size, 2)",
+             expect=["R2"], why="SP below the limit: matched overshoots, remainder negative"),
         dict(id="c04-matched-decrement", file=SIM, func="SimulatedOrder._calculate_process_available",
              old="        self._piq = 0", new="        self._piq = 0\n        self.size_matched = round(self.size_matched, 1)", expect=["R4"],
              why="matched size changed outside the fill funnel"),
